@@ -19,6 +19,20 @@ How the clauses of C19 are expressed
   * every obligation is proved for symbolic shapes (counts, batch sizes, n_parallel, padded / unpadded feature counts,
     per-feature category counts).  An obligation that is not proved is re-examined on small CONCRETE shapes where every
     library fact and the obligation are quantifier-free: only a solver `sat` there is a violation (then replayed natively).
+
+Sections (modular: each level is verified against the CONTRACT of the level below, which is itself proved from the real code)
+  A  VectorizedOptimizer._update_best_results   full functional contract: count, same-index pairs (injective), top-k, monotone
+  B  VectorizedOptimizer.__call__               against A's contract and the strategy INTERFACE contract: loop invariant on the
+                                                real `_optimization_one_step` (fori_loop and python loop), result in bounds, padding
+                                                zero, reward == score of the stored row, call-site obligations, key discipline
+  C  VectorizedEagleStrategy                    suggest / update / init_state (+ prior pool population loop) / DefaultRandomSampler /
+                                                DefaultProjection meet the interface contract and keep the state invariant;
+                                                NaN-freedom of the mutation by value-class abstract interpretation
+  D  RandomVectorizedStrategy, factories        in-bounds sampling; the factories establish the class invariants (bounded layouts)
+  E  determinism                                read-frame analysis (as C14) + "every key derives from the seed argument"
+Recorded open findings (known_findings.d/C19.json, each reproduced natively by replay/c19_replay.py witness <name>):
+  nan_ranked_best, prior_not_merged, placeholder_returned, random_strategy_padding, random_normalization_nan.
+Not claimed: "best of everything evaluated" for count > 1 (pigeonhole argument); proved for count == 1.
 """
 import itertools
 import json
@@ -336,7 +350,7 @@ def make_strategy(ctx):
                                              'update': Builtin('strategy.update', update)})
 
 
-def call_entry(concrete=None, use_fori=True, prior=True, parallel=True, seeded=True, aux=False):
+def call_entry(concrete=None, use_fori=True, prior=True, parallel=True, seeded=True, aux=False, track_evaluated=False):
     def entry(it):
         run = it.run
         d = dims(run, ['count', 'B', 'P', 'Dc', 'Dk', 'nc', 'nk', 'M', 'Np', 'No'], concrete, {'count': 1, 'B': 1, 'P': 1, 'M': 1})
@@ -347,7 +361,11 @@ def call_entry(concrete=None, use_fori=True, prior=True, parallel=True, seeded=T
             d['P'] = 1
         ctx = CallCtx(d)
         run.c19 = ctx
-        if concrete is not None:
+        ctx.track_evaluated = track_evaluated
+        if track_evaluated:
+            rho = z3.Const('rho!nn', Row)
+            run.axiom(z3.ForAll([rho], z3.Not(X.is_nan(SCORE(rho))), patterns=[SCORE(rho)]))      # hypothesis of this clause: no NaN scores
+        if concrete is not None and not track_evaluated:
             run.jx_unroll_fori = True
         J.fact(it, J.ALL(1, lambda e: SIZES(e) >= 1, shape=(d['Dk'],), pats=lambda e: SIZES(e)))     # every categorical feature has a category
         cls = klass(VB, 'VectorizedOptimizer')
@@ -402,7 +420,7 @@ def ubr_model(it, args, kw):
     topk = lambda t, j: z3.Implies(z3.And(rng(t, cnt), rng(j, N), z3.Not(sel(j))),
                                    z3.Or(X.is_nan(allr(j)), X.is_nan(rr.at(t)), X.ge(rr.at(t), allr(j))))
     J.fact(it, J.ALL(2, topk, shape=(count, J.norm(N)), pats=lambda t, j: z3.MultiPattern(idx(t), inv(j))))
-    rec = {'idx': idx, 'inv': inv, 'B': B, 'count': count, 'allr': allr, 'sel': sel, 'old': best, 'newf': newf, 'newr': newr}
+    rec = {'idx': idx, 'inv': inv, 'B': B, 'count': count, 'allr': allr, 'sel': sel, 'old': best, 'newf': newf, 'newr': newr, 'topk': topk}
     run.__dict__.setdefault('c19_merges', []).append(rec)
     res = Obj(klass(VB, 'VectorizedStrategyResults'), {'rewards': rr, 'features': CC(rc, rk), 'aux': M.PyDict()})
     res.merge = rec
@@ -423,6 +441,22 @@ def _best_parts(carry):
         return rr, rc, rk
     except (AttributeError, KeyError, IndexError, TypeError):
         return None
+
+
+class RowClause(Clause):
+    """forall rho : Row. body(rho) -- assumed with the given pattern, proved for a fresh Skolem row."""
+
+    def __init__(self, name, body, pat):
+        Clause.__init__(self, name, (), None)
+        self.rbody, self.rpat = body, pat
+
+    def formula(self):
+        rho = z3.Const('rho!%d' % next(J._uid), Row)
+        return z3.ForAll([rho], self.rbody(rho), patterns=[self.rpat(rho)])
+
+    def goal(self, it):
+        run = getattr(it, 'run', it)
+        return self.rbody(run.fresh('sk_row', Row))
 
 
 def call_invariant(it, carry, i, ctx):
@@ -465,6 +499,30 @@ def call_invariant(it, carry, i, ctx):
         Clause('row_is_the_stored_categorical_features', (count, P, Dk),
                lambda t, p, e: z3.If(ev(t), rk.at(t, p, e) == ROWK(g(t), p, e), rk.at(t, p, e) == 0), pats=lambda t, p, e: rk.at(t, p, e)),
     ]
+    if conc(count) == 1 and getattr(cc, 'track_evaluated', False):
+        # count == 1, score function without NaN values: the best result dominates EVERY row evaluated so far (ghost set Ev)
+        if phase == 'init':
+            Ev = lambda rho: z3.BoolVal(False)
+        elif phase in ('head', 'exit'):
+            evf = z3.Function('evaluated_rows!%d' % next(J._uid), Row, z3.BoolSort())
+            Ev = lambda rho: evf(rho)
+            ctx['Ev_' + phase] = Ev
+            cc.Ev = Ev
+        else:
+            Ev0, sc, m = ctx['Ev_head'], cc.score_calls[-1], carry[1].merge
+            Ev = lambda rho: z3.Or(Ev0(rho), QE(sc['n'], lambda k: rho == sc['rows'](k)))
+        dom = lambda rho: z3.Implies(Ev(rho), X.ge(rr.at(0), SCORE(rho)))
+        if phase == 'preserve':
+            m, sc = carry[1].merge, cc.score_calls[-1]
+            Bz = zi(m['B'])
+            k0 = run.fresh('sk_k', z3.IntSort())
+            # instances of the (assumed, proved in section A) top-k fact of the merge contract at the indices this step talks about
+            hints = lambda rho: z3.And(m['topk'](z3.IntVal(0), Bz), z3.Implies(z3.And(rng(k0, sc['n']), rho == sc['rows'](k0)), m['topk'](z3.IntVal(0), k0)),
+                                       ctx['Ev_head'](rho) == ctx['Ev_head'](rho))
+            body = lambda rho: z3.Implies(hints(rho), z3.Implies(z3.Or(ctx['Ev_head'](rho), z3.And(rng(k0, sc['n']), rho == sc['rows'](k0))), X.ge(rr.at(0), SCORE(rho))))
+            cl.append(RowClause('dominates_every_evaluated_row[count=1]', body, lambda rho: SCORE(rho)))
+        else:
+            cl.append(RowClause('dominates_every_evaluated_row[count=1]', dom, (lambda rho: Ev(rho)) if phase != 'init' else (lambda rho: SCORE(rho))))
     if phase == 'preserve':
         # step clause: the best reward never decreases (residual of the NaN finding: unless the compared new reward is NaN)
         old = ctx['head_carry'][1].attrs['rewards']
@@ -498,7 +556,7 @@ def call_pyloop_invariant(it, fr, lctx):
         st['head_carry'] = carry
     cls = call_invariant(it, carry, lctx.i, st)
     if lctx.phase == 'head':
-        return [(c.name, J.ALL(len(c.extents), c.body, c.pats, shape=c.extents)) for c in cls]
+        return [(c.name, c.formula()) for c in cls]
     return [(c.name, c.goal(it)) for c in cls]
 
 
@@ -594,10 +652,16 @@ def call_sites(path, result_parts):
                     z3.Implies(z3.And(rng(b, nb), rng(p, P), rng(e, Dk), e < zi(nk)), cat_of(pf).at(b, p, e) == pk.at(b * zi(P) + p, e)))))
                 # known finding: the prior rewards never reach the best results
                 if rr is not None:
-                    out.append((N + 'not_worse_than_best_prior', z3.Implies(
-                        z3.And(rng(b, nb), b < nvalid, z3.Not(X.is_nan(pr.at(b)))), QE(count, lambda tw: X.ge(rr.at(tw), pr.at(b))))))
+                    clause = z3.Implies(z3.And(rng(b, nb), b < nvalid, z3.Not(X.is_nan(pr.at(b)))), QE(count, lambda tw: X.ge(rr.at(tw), pr.at(b))))
+                    out.append((N + 'not_worse_than_best_prior', clause))
+                    # residual: outside the finding's witness class (no unpadded prior row with a non-NaN score) the clause holds
+                    b2 = sk(run, 'b2')
+                    no_witness = z3.Not(z3.And(rng(b, nb), b < nvalid, z3.Not(X.is_nan(pr.at(b)))))
+                    out.append((N + 'not_worse_than_best_prior.residual', z3.Implies(no_witness, clause)))
         elif pf is not None or pr is not None:
             out.append((N + 'prior_features_reach_the_strategy', z3.BoolVal(False)))
+        elif rr is not None:
+            out.append((N + 'not_worse_than_best_prior.residual', z3.BoolVal(True)))      # no prior point was given
     # randomness: every key handed out is derived by split/fold_in from the seed argument (or PRNGKey(0) when none is given, or
     # the loop-carried key, itself covered by the invariant `structure` clause), and no key is handed to two consumers
     seed = cc.kw.get('seed')
@@ -650,6 +714,9 @@ def call_post(path):
                                       z3.Implies(z3.And(rng(p, P), rng(e, Dk)), rk.at(tt, p, e) == ROWK(g(tt), p, e)))
         out.append((N + 'reward_is_score_of_candidate.residual', z3.Implies(z3.And(rng(t, count), rr.at(t) != X.ninf), evaluated(t))))
         out.append((N + 'reward_is_score_of_candidate', z3.Implies(rng(t, count), z3.And(ev(t), evaluated(t)))))
+    if getattr(cc, 'track_evaluated', False) and getattr(cc, 'Ev', None) is not None:
+        rho = run.fresh('sk_row', Row)
+        out.append((N + 'returns_the_best_evaluated_row[count=1,score_never_nan]', z3.Implies(cc.Ev(rho), X.ge(rr.at(0), SCORE(rho)))))
     out += call_sites(path, (rr, rc, rk))
     if cc.kw.get('score_with_aux_fn') is not None:
         ax = [s for s in cc.score_calls if s['aux']]
@@ -691,6 +758,8 @@ class Prover:
                     obs += [(n, f, None, None) for n, f in post(p)]
                 explained = False
                 for n, f, npc, nax in obs:
+                    if getattr(self, 'only', None) is not None and not self.only(n):
+                        continue
                     if n in skip:
                         inst.setdefault(n, []).append({'v': 'skipped', 'dt': 0.0, 'label': label, 'kind': p.kind})
                         continue
@@ -710,10 +779,11 @@ class Prover:
                     unsupported.append('%s: the assumptions of path %d (%s) are inconsistent (vacuous proof)' % (label, pi, p.kind))
         return inst, unsupported
 
-    def run(self, fname, entries, post, twins=(), setup=None, twin_setup=None, findings=None, replay=None, rename=None):
+    def run(self, fname, entries, post, twins=(), setup=None, twin_setup=None, findings=None, replay=None, rename=None, only=None):
         """findings: {obligation name: finding description}; replay(name, rec) -> (replay dict, reproduced)"""
         t_run = time.time()
         try:
+            self.only = only
             return self._run(fname, entries, post, twins, setup, twin_setup, findings, replay, rename)
         finally:
             if os.environ.get('VERIF_C19_PROFILE'):
@@ -732,6 +802,19 @@ class Prover:
         if (open_names or bad) and twins:
             tw, tbad = self._collect(twins, post, setup=twin_setup or setup, timeout_ms=20000, want_model=True)
             self.last_twin_unsupported = tbad
+        elif twins:
+            # nothing to decide: the concrete shapes still serve as a satisfiability witness of the assumptions (vacuity check:
+            # on concrete shapes everything is quantifier-free, so `sat` is definite)
+            for label, entry in twins[:1]:
+                if twin_setup or setup:
+                    (twin_setup or setup)(label)
+                for pi, p in enumerate(E.explore(entry, max_paths=60, timeout_ms=1500, deadline_s=60)):
+                    if p.kind == 'unsupported':
+                        continue
+                    v0, _, _ = E.discharge(p.run, z3.BoolVal(False), timeout_ms=5000)
+                    if v0 == 'unsat':
+                        chk.obligation('%s.vacuity' % fname, fname, 'checker', report.ERROR, 0.0,
+                                       detail='the assumptions of the contract are inconsistent on the concrete shapes %s' % label)
         for n, l in inst.items():
             tsum = sum(i['dt'] for i in l)
             detail = {'instances': len(l), 'configurations': sorted({i['label'] for i in l})[:12]}
@@ -1338,6 +1421,8 @@ CLAUSE_OF = {     # obligation-name fragment -> clause name checked by the nativ
     'reward_is_score': 'reward_is_score_of_candidate.residual', 'row_is_the_stored': 'reward_is_score_of_candidate.residual',
     'count': 'returns_requested_count', 'shapes': 'returns_requested_count', 'randomness': 'same_seed_same_result',
     'zero_padding': 'padding_never_leaks.continuous', 'update_receives': 'reward_is_score_of_candidate.residual',
+    'returns': 'returns_requested_count', 'no_ambient': 'same_seed_same_result', 'seed_reaches': 'same_seed_same_result',
+    'acquisition_seed': 'reward_is_score_of_candidate.residual', 'padded_prior': 'continuous_in_unit_cube',
 }
 
 
@@ -1405,9 +1490,9 @@ def frame_obligations(chk):
             continue
         detail = {'methods': methods, 'functions_in_closure': s.get('functions', None) if isinstance(s, dict) else None}
         if amb:
+            rep, reproduced = battery_replay('C19.%s.no_ambient_nondeterminism' % fn, None)
             chk.obligation('C19.%s.no_ambient_nondeterminism' % fn, fn, 'frame', report.VIOLATED, dt, detail=dict(detail, ambient=amb[:6]),
-                           model='\n'.join(str(a) for a in amb[:10]), replay={'driver': 'replay/c19_replay.py battery', 'clause': 'same_seed_same_result'},
-                           reproduced=None)
+                           model='\n'.join(str(a) for a in amb[:10]), replay=rep, reproduced=reproduced)
         else:
             chk.obligation('C19.%s.no_ambient_nondeterminism' % fn, fn, 'frame', report.PROVED, dt, detail=detail)
         if seedv:
@@ -1639,8 +1724,11 @@ def main(tier):
               ('fori=0,prior=0,aux=1,count=1,batch=2,iterations=1', call_entry({'count': 1, 'B': 2, 'P': 1, 'Dc': 1, 'Dk': 2, 'nc': 1, 'nk': 1, 'M': 2, 'Np': 0, 'No': 0},
                                                                                False, False, False, False, True))]
         known_b = open_findings(chk, ['C19.__call__.not_worse_than_best_prior', 'C19.__call__.reward_is_score_of_candidate'])
-        pv.run(CALL, entries, call_post, twins=tw, findings=known_b, replay=battery_replay,
-               rename=lambda n: n.replace('VectorizedOptimizer.__call__.loop1.', 'C19.__call__.loop.pyloop.'))
+        ren = lambda n: n.replace('VectorizedOptimizer.__call__.loop1.', 'C19.__call__.loop.pyloop.')
+        pv.run(CALL, entries, call_post, twins=tw, findings=known_b, replay=battery_replay, rename=ren)
+        # count == 1 (the default), score functions without NaN values: the result dominates every row evaluated in any iteration
+        ent1 = [('count=1,fori=%d,track evaluated rows' % f, call_entry({'count': 1}, bool(f), False, True, True, False, track_evaluated=True)) for f in (1, 0)]
+        pv.run(CALL, ent1, call_post, findings={}, replay=battery_replay, rename=ren, only=lambda n: 'count=1' in n)
     finally:
         E.MODELS.pop(UBR_KEY, None)
 
